@@ -65,6 +65,7 @@ type SrvScenario struct {
 	TimeoutWithData  bool // the server side reads sometimes return data together with the deadline error
 	Race             bool // race mode: free-running goroutines, no monitors
 	SharedHandlerErr bool // typed handler errors are one shared value (sentinel idiom)
+	LongPauses       bool // some client pauses last many simulated seconds: allow the scheduler the steps the polling server needs
 }
 
 type SrvConnOut struct {
@@ -202,6 +203,9 @@ func completeFrames(reqs []SrvReq, n int) int {
 // request, the reply length of the whole-arrival run: it bounds what the server may have written at any instant.
 func RunSrv(rc *RunCtx, sc *SrvScenario, sched *Tape, seed uint64, twinReplyLens [][]int) *SrvOutcome {
 	s := NewSim(sched)
+	if sc.LongPauses {
+		s.MaxSteps = 400000
+	}
 	s.Tracing = rc.Tracing
 	s.Free = sc.Race
 	out := &SrvOutcome{Conns: make([]SrvConnOut, len(sc.Conns))}
